@@ -401,10 +401,13 @@ JoinFrameArgsFrom(as, i) ==
   ELSE (IF i > 1 THEN <<" ">> ELSE <<>>) \o <<"a", "r", "g", "[">> \o NatStr(i - 1) \o <<"]", ":", " ">> \o as[i] \o JoinFrameArgsFrom(as, i + 1)
 JoinFrameArgs(as) == JoinFrameArgsFrom(as, 1)
 FramesOK(sf, rf) == Len(sf) = Len(rf) /\ \A i \in 1..Len(sf) : sf[i].name = rf[i].name /\ JoinFrameArgs(sf[i].args) = rf[i].args
+Operators == {"+", "-", "*", "/", "%", "&", "&&", "|", "||", "<<", ">>", "<", ">", "<=", ">=", "==", "!=", "#", "!", "~"}
+\* moving an operand into the temp register is an internal step of every operator; it fails (nil error) on a nil operand
+TempMoveOfNil(s, r) == s.op \in Operators /\ r.op = "MOV" /\ r.args = <<"n", "i", "l">> /\ \E k \in 1..Len(s.args) : s.args[k] = <<"n", "i", "l">>
 ReportOK(s, r) ==
   /\ r.parsed
-  /\ r.op \in OpFamily(s.op)
-  /\ ArgsOK(s.args, r.op, r.args)
+  /\ \/ r.op \in OpFamily(s.op) /\ ArgsOK(s.args, r.op, r.args)
+     \/ TempMoveOfNil(s, r)
   /\ Len(s.ctxs) = Len(r.ctxs)
   /\ \A i \in 1..Len(s.ctxs) : FramesOK(s.ctxs[i], r.ctxs[i])
 
